@@ -186,9 +186,12 @@ def parse_file(path, decls, rel=None):
                 decls.impls[(rel, ln, col)] = (mm.group(1), tr.strip().split('::')[-1])
                 pos += len(tr) + 1
 
-def load_repo(repo='/repo'):
+def load_repo(repo='/repo', prefer=None):
+    """prefer: crate directory name whose declarations win when two crates declare the same struct/enum name"""
     d = Decls()
-    for p in sorted(glob.glob(os.path.join(repo, 'crates', '*', 'src', '**', '*.rs'), recursive=True)):
+    files = sorted(glob.glob(os.path.join(repo, 'crates', '*', 'src', '**', '*.rs'), recursive=True))
+    if prefer: files.sort(key=lambda p: (0 if f'/crates/{prefer}/' in p else 1, p))
+    for p in files:
         parse_file(p, d, rel=os.path.relpath(p, repo))
     # std enums
     d.enums.setdefault('Option', [('None', 'unit', []), ('Some', 'tuple', [(None, 'T')])])
